@@ -12,6 +12,8 @@
   supported by running the service with the race detector under concurrent load (harness c10.go).
 -/
 import Rdm.Generated.Sites
+import Rdm.Lemmas.E2EServiceBatch
+import Rdm.Lemmas.E2EExamples
 namespace Rdm.Props.C10
 
 /-! ### abstract machine -/
@@ -128,5 +130,151 @@ theorem per_request_objects_fresh : Sites.blankParamsNotFresh = [] := by decide
 theorem no_concurrency_primitives_in_lib :
     Sites.goStatements = [] ∧ Sites.channelOps = [] ∧ Sites.clockUses = [] ∧ Sites.globalRandUses = [] := by
   decide
+
+/-! ## END TO END: a batch of whole requests, in any order
+
+The machine above is abstract.  Here the model of the whole `MakeDecision` is plugged in.  The handler of the
+model is the function `Rdm.decide exp · seeds` (Model/Decide.lean): it reads the request and the seeded streams
+and nothing else — no registry object is written, no state survives a request (for the real code that premise is
+discharged above from the regenerated facts).  Two readings of "concurrent requests do not influence each other"
+follow for the model:
+  * batch reading (`e2esHandleAll`, Lemmas/E2EServiceBatch.lean): handling a batch of requests in ANY order —
+    any permutation, any interleaving of several clients' sequences — yields for each request the response of
+    handling it alone;
+  * machine reading: as a `Handler` of the machine above, a decision has an empty read set, so under every
+    schedule with arbitrary foreign writes it ends with the response it computes alone. -/
+
+section EndToEnd
+open Rdm
+variable {α : Type} [Num α]
+
+/-- handling one request alone -/
+theorem handled_alone (exp : α → α) (seeds : Seeds α) (t : Nat) (req : Request α) :
+    e2esHandleAll exp seeds [(t, req)] = [(t, Rdm.decide exp req seeds)] := rfl
+
+/-- **N3 (C10)**: a batch handled in any order `batch'` (a permutation of `batch`) yields, for each request,
+    exactly the response of handling it alone: the tagged responses are the same up to the same reordering,
+    every request of the batch is answered with its solo response, and nothing else is answered -/
+theorem batch_in_any_order_gives_each_request_its_solo_response (exp : α → α) (seeds : Seeds α)
+    (batch batch' : List (Nat × Request α)) (h : batch'.Perm batch) :
+    (e2esHandleAll exp seeds batch').Perm (e2esHandleAll exp seeds batch) ∧
+    (∀ t req, (t, req) ∈ batch → ∀ r, e2esHandleAll exp seeds [(t, req)] = [(t, r)] →
+      (t, r) ∈ e2esHandleAll exp seeds batch') ∧
+    (∀ t r, (t, r) ∈ e2esHandleAll exp seeds batch' →
+      ∃ req, (t, req) ∈ batch ∧ e2esHandleAll exp seeds [(t, req)] = [(t, r)]) := by
+  refine ⟨e2es_handleAll_perm exp seeds h, ?_, ?_⟩
+  · intro t req hm r hr
+    rw [handled_alone] at hr
+    simp only [List.cons.injEq, Prod.mk.injEq, true_and, and_true] at hr
+    subst hr
+    exact (e2es_handleAll_mem _ _ _ _ _).mpr ⟨req, h.mem_iff.mpr hm, rfl⟩
+  · intro t r hm
+    obtain ⟨req, hq, rfl⟩ := (e2es_handleAll_mem _ _ _ _ _).mp hm
+    exact ⟨req, h.mem_iff.mp hq, rfl⟩
+
+/-- with pairwise different tags the response to a tag is unique: in whatever order the batch is handled, tag
+    `t` gets the response its request gets alone -/
+theorem response_to_a_tag_is_its_solo_response (exp : α → α) (seeds : Seeds α)
+    (batch batch' : List (Nat × Request α)) (h : batch'.Perm batch) (hnd : (batch.map (·.1)).Nodup)
+    (t : Nat) (req : Request α) (hm : (t, req) ∈ batch) (r : R (Response α))
+    (hr : (t, r) ∈ e2esHandleAll exp seeds batch') : r = Rdm.decide exp req seeds := by
+  obtain ⟨req', hq, rfl⟩ := (e2es_handleAll_mem _ _ _ _ _).mp hr
+  have hq' : (t, req') ∈ batch := h.mem_iff.mp hq
+  have : req' = req := by
+    have hpw : batch.Pairwise (fun a b => a.1 ≠ b.1) := List.pairwise_map.mp hnd
+    apply Classical.byContradiction
+    intro hne
+    obtain ⟨i, hi, ei⟩ := List.mem_iff_getElem.mp hq'
+    obtain ⟨j, hj, ej⟩ := List.mem_iff_getElem.mp hm
+    have hij : i ≠ j := by
+      rintro rfl
+      rw [ei] at ej
+      exact hne (Prod.mk.inj ej).2
+    rcases Nat.lt_or_gt_of_ne hij with hlt | hlt
+    · have := List.pairwise_iff_getElem.mp hpw i j hi hj hlt
+      rw [ei, ej] at this
+      exact this rfl
+    · have := List.pairwise_iff_getElem.mp hpw j i hj hi hlt
+      rw [ei, ej] at this
+      exact this rfl
+  rw [this]
+
+/-- two clients' sequences interleaved in any way (any list with the same entries as their concatenation): each
+    client's requests get the responses they get when that client is served alone -/
+theorem interleaving_two_clients (exp : α → α) (seeds : Seeds α) (c₁ c₂ merged : List (Nat × Request α))
+    (h : merged.Perm (c₁ ++ c₂)) :
+    ∀ t r, (t, r) ∈ e2esHandleAll exp seeds c₁ → (t, r) ∈ e2esHandleAll exp seeds merged := by
+  intro t r hm
+  obtain ⟨req, hq, rfl⟩ := (e2es_handleAll_mem _ _ _ _ _).mp hm
+  exact (e2es_handleAll_mem _ _ _ _ _).mpr ⟨req, h.mem_iff.mpr (List.mem_append_left _ hq), rfl⟩
+
+/-- the decision of one request as a handler of the abstract machine: one step, reading no shared location and
+    writing none; its private state is the response once computed -/
+def decisionHandler (Loc Val : Type) (exp : α → α) (req : Request α) (seeds : Seeds α) :
+    Handler Loc Val (Option (R (Response α))) where
+  step := fun _ _ => (some (Rdm.decide exp req seeds), [])
+  reads := fun _ => False
+  writes := fun _ => False
+  frame_read := fun _ _ _ _ => rfl
+  frame_write := fun _ _ _ _ h => by cases h
+
+/-- **machine reading**: under every schedule — any number of foreign ticks writing anything anywhere, before,
+    between and after — a decision that gets at least one tick ends with the response it computes alone -/
+theorem decision_under_any_schedule {Loc Val : Type} [DecidableEq Loc] (exp : α → α) (req : Request α)
+    (seeds : Seeds α) (sched : List (Tick Loc Val)) (m : Mem Loc Val) (s : Option (R (Response α)))
+    (hself : Tick.self ∈ sched) :
+    (run (decisionHandler Loc Val exp req seeds) sched m s).2 = some (Rdm.decide exp req seeds) := by
+  have hdone : ∀ (sched : List (Tick Loc Val)) (m : Mem Loc Val),
+      (run (decisionHandler Loc Val exp req seeds) sched m (some (Rdm.decide exp req seeds))).2
+        = some (Rdm.decide exp req seeds) := by
+    intro sched
+    induction sched with
+    | nil => intro m; rfl
+    | cons t ts ih =>
+      intro m
+      cases t with
+      | self => exact ih _
+      | other ws => exact ih _
+  induction sched generalizing m s with
+  | nil => cases hself
+  | cons t ts ih =>
+    cases t with
+    | self => exact hdone ts _
+    | other ws =>
+      have : Tick.self ∈ ts := by
+        rcases List.mem_cons.mp hself with h | h
+        · cases h
+        · exact h
+      exact ih _ _ this
+
+/-- … and it is an instance of `noninterference`: its read set is empty, so every schedule is admissible -/
+theorem decision_is_noninterfering {Loc Val : Type} [DecidableEq Loc] (exp : α → α) (req : Request α)
+    (seeds : Seeds α) (sched : List (Tick Loc Val)) (m m' : Mem Loc Val) (s : Option (R (Response α))) :
+    (run (decisionHandler Loc Val exp req seeds) sched m s).2
+      = (run (decisionHandler Loc Val exp req seeds) (solo sched) m' s).2 :=
+  (noninterference (decisionHandler Loc Val exp req seeds) sched m m' s
+    (fun _ _ _ _ _ _ h => h) (fun _ h => h.elim)).1
+
+/-- the batch of the examples in another order -/
+theorem example_batch_perm :
+    ([(2, e2eExMaj), (0, e2eExWs), (3, e2eExMaj), (1, e2eExWs)] : List (Nat × Request Rat)).Perm
+      [(0, e2eExWs), (1, e2eExWs), (2, e2eExMaj), (3, e2eExMaj)] :=
+  (List.Perm.swap _ _ _).trans
+    (List.Perm.cons _ (((List.Perm.swap _ _ _).cons _).trans (List.Perm.swap _ _ _)))
+
+/-- the hypotheses are satisfiable: the weighted-sum and the majority example requests, each submitted twice,
+    handled in two different orders — same tagged responses -/
+example : (e2esHandleAll id e2eExSeeds [(2, e2eExMaj), (0, e2eExWs), (3, e2eExMaj), (1, e2eExWs)]).Perm
+    (e2esHandleAll id e2eExSeeds [(0, e2eExWs), (1, e2eExWs), (2, e2eExMaj), (3, e2eExMaj)]) :=
+  (batch_in_any_order_gives_each_request_its_solo_response id e2eExSeeds _ _ example_batch_perm).1
+
+example (r : R (Response Rat))
+    (h : (1, r) ∈ e2esHandleAll id e2eExSeeds [(2, e2eExMaj), (0, e2eExWs), (3, e2eExMaj), (1, e2eExWs)]) :
+    r = Rdm.decide id e2eExWs e2eExSeeds :=
+  response_to_a_tag_is_its_solo_response id e2eExSeeds
+    [(0, e2eExWs), (1, e2eExWs), (2, e2eExMaj), (3, e2eExMaj)] _ example_batch_perm (by decide) 1 e2eExWs
+    (by simp) r h
+
+end EndToEnd
 
 end Rdm.Props.C10
